@@ -115,9 +115,10 @@ def find_function(qual):
     cls = mod.classes.get(parts[0])
     if cls is None:
         raise LookupError(f"{qual}: no such class")
-    for node in cls.body:
-        if isinstance(node, (ast.FunctionDef, ast.AsyncFunctionDef)) and node.name == parts[1]:
-            return mod, cls, node
+    found = [node for node in cls.body if isinstance(node, (ast.FunctionDef, ast.AsyncFunctionDef)) and node.name == parts[1]]
+    if found:
+        # several definitions of one name (typing.overload stubs followed by the implementation): the last one is the method
+        return mod, cls, found[-1]
     raise LookupError(f"{qual}: no such method")
 
 
